@@ -355,7 +355,6 @@ pub fn macroexpand(ctx: &mut TulispContext, inp: TulispObject) -> Result<TulispO
         return Ok(inp);
     }
     let expr = inp.clone();
-    expr.with_ctxobj(inp.ctxobj());
     let exp_car = expr.car()?;
     let value = match exp_car.get() {
         Ok(val) => val,
